@@ -20,10 +20,16 @@ import klongpy.db.file_cache as fc
 from klongpy.db.sys_fn_kvs import KeyValueStorage, TableStorage
 
 ROOT = '/store'
-KEYS = ['a', 'b', 'd/x', 'd/y']
+KEYS = ['a', 'b', 'd/x', 'd/y', 'd//x']     # 'd//x' is another spelling of the path of 'd/x': the same key
 MISSING = ['zz', 'd/zz', 'q/r', 'd']        # 'd' names the directory of the nested keys once one of them is set
 CONFLICT = ['d', 'a/q']                    # keys the one-file-per-key layout cannot hold next to 'd/x' / 'a': a set of
                                            # one of them (or of 'd/x' / 'a' after it) must fail and change nothing
+
+
+def mkey(k):
+    """The key a key text stands for: the store maps keys to paths, and two spellings of one path are one key."""
+    import posixpath
+    return posixpath.normpath(k)
 
 
 def _conflicts(k, model):
@@ -244,16 +250,16 @@ def expected(model, op, limit, sizes, canon_vals):
             return ('exc-os',)          # any OSError class: which one depends on which of the two is the directory
         return ('ok', ('store',))
     if op[0] == 'get':
-        if op[1] not in model:
+        if mkey(op[1]) not in model:
             return ('ok', U)
-        return ('ok', canon_vals[model[op[1]]])
+        return ('ok', canon_vals[model[mkey(op[1])]])
     return ('ok', ('none',))
 
 
 def apply_model(model, op, limit, sizes):
     lim = limit or 2 ** 20
     if op[0] == 'set' and sizes[op[2]] <= lim and not _conflicts(op[1], model):
-        model[op[1]] = op[2]
+        model[mkey(op[1])] = op[2]
 
 
 def run(cfg):
